@@ -1,6 +1,6 @@
 ------------------------------ MODULE MC_DB04 ------------------------------
 (* C04: primary keys.  1..3 features, each of type gene/exon with ID and Name attributes carrying
-   0, 1 or 2 values (or absent), x 13 id_spec forms.  Invariants state C04 on the result of the
+   0, 1 or 2 values (or absent), x 16 id_spec forms.  Invariants state C04 on the result of the
    import; each case is printed with the expected database for replay on the code.              *)
 EXTENDS GffDB, Json
 CONSTANT NF
@@ -23,7 +23,11 @@ Specs == << [kind |-> "list", items |-> <<A(T_ID)>>],
             [kind |-> "list", items |-> <<[t |-> "call", fn |-> "const"]>>],
             [kind |-> "list", items |-> <<[t |-> "call", fn |-> "auto_seqid"]>>],
             [kind |-> "list", items |-> <<[t |-> "call", fn |-> "name"]>>],
-            [kind |-> "list", items |-> <<[t |-> "call", fn |-> "none"], A(T_ID)>> ] >>
+            [kind |-> "list", items |-> <<[t |-> "call", fn |-> "none"], A(T_ID)>> ],
+            \* the same meanings handed over in other argument forms (seqform is read by the harness only): tuples instead of lists, one-item tuples
+            [kind |-> "dict", seqform |-> "tuple", map |-> <<<<T_gene, <<A(T_Name), A(T_ID)>>>>, <<T_exon, <<A(T_ID)>>>>>>],
+            [kind |-> "list", seqform |-> "tuple", items |-> <<A(T_Name), A(T_ID)>>],
+            [kind |-> "list", seqform |-> "tuple", items |-> <<A(T_ID)>>] >>
 
 VARIABLES fs, sp, res, done
 OneFeat == {Feat(ft, i, n) : ft \in {T_gene, T_exon}, i \in AttrChoices, n \in {<<>>, <<VA>>, <<VA, VB>>}}
